@@ -1070,6 +1070,14 @@ def run_e2e09_fit(spec):
         y = np.exp(y)                       # Box-Cox needs positive targets
         hist["boxcox:" + bc] = 1
     data = {"features": X, "targets": y}
+    if spec.get("fit_start", True) and kind != "expdecay":
+        # what `fit` does first: the likelihood (target transform, mean) adapts to the data set - e.g. the Box-Cox lambda is
+        # held fixed for fewer than 5 observations; whatever mode it is in, the gradient is the derivative of the value
+        try:
+            lik.on_fit_start(data)
+            hist["fit_start_called"] = 1
+        except Exception:  # noqa
+            hist["fit_start_raised"] = 1
     conv, vec = randomize_params(rng, lik, noise_lo=1e-3, noise_hi=1.0, span=1.5)
     if bc is not None and bc != "random":
         tt.set_boxcox_lambda(float(bc))
